@@ -6,7 +6,9 @@ The recorder builds the host circuit (fresh inputs, or a random circuit whose ar
 - with repeats - serve as operands), calls the generator, and describes, in LITTLE-ENDIAN
 label sequences, the identity the result must satisfy (the `checks` judged by TLC).
 """
+import itertools
 import random
+import re
 
 from .. import gen
 from ..project import project
@@ -21,18 +23,85 @@ def make_host(src, n_operands):
     from cirbo.core.circuit import Circuit
 
     h = src.get('host')
+    if h and h.get('oplabels'):
+        # a gate-free host whose inputs carry the given names, used as operands in the given order
+        c = Circuit.bare_circuit_with_labels(list(h['oplabels']))
+        ops = list(h['oplabels'])[:n_operands]
+        plant_decoys(c, src, ops)
+        return c, ops
     if not h:
         c = Circuit.bare_circuit(n_operands, prefix='x')
-        return c, list(c.inputs)
+        ops = list(c.inputs)
+        plant_decoys(c, src, ops)
+        return c, ops
     r = random.Random(h['seed'])
     ni = h.get('ni', 3)
     net = gen.random_netlist(r, ni=ni, ng=h.get('ng', 5), types=['AND', 'OR', 'XOR', 'NOT', 'NAND', 'GT', 'NXOR', 'IFF'], amax=3)
     outs = gen.pick_outputs(r, ni, len(net[1]), kind=r.choice(['last', 'some', 'none']))
-    labels = [f'hi{j}' for j in range(ni)] + [f'hg{k}' for k in range(len(net[1]))]
+    labels = host_labels(h, ni, len(net[1]))
     c = gen.materialize(net, labels=labels, outputs=outs)
     pool = list(c.gates)
     ops = [r.choice(pool) for _ in range(n_operands)]  # arbitrary gates, repeats allowed
+    plant_decoys(c, src, pool)
     return c, ops
+
+
+def host_labels(h, ni, ng):
+    """Labels of a host circuit are the user's.  Half of the hosts use plain names; a quarter names that are ambiguous once
+    joined with '_' (u, u_u, u_v, 1_1, ...: any key built by concatenation confuses (u, u_v) with (u_u, v)); a quarter names
+    that carry the prefixes the library itself generates (not_x, new_x, tmp_x, gate_x next to x)."""
+    plain = [f'hi{j}' for j in range(ni)] + [f'hg{k}' for k in range(ng)]
+    style = h['seed'] % 4
+    if style < 2:
+        return plain
+    r = random.Random(h['seed'] * 7 + 1)
+    if style == 2:
+        fam = [t for n_ in (1, 2, 3, 4) for t in ('_'.join(p) for p in itertools.product(('u', 'v', '1'), repeat=n_))]
+        r.shuffle(fam)
+        fam.sort(key=lambda t: t.count('_'))      # short names first: (u, u_v) / (u_u, v) style collisions are likely
+        return fam[:ni + ng] if ni + ng <= len(fam) else plain
+    out = []
+    for j, l in enumerate(plain):
+        if j % 2 and out:
+            out.append(r.choice(['not_', 'new_', 'tmp_', 'gate_', 'new_gate_NOT_for_', 'pairwise_xor@', 'if_then_else_']) + out[-1])
+        else:
+            out.append(l)
+    return out
+
+
+_HEX32 = re.compile(r'[0-9a-f]{32}')
+
+
+def plant_decoys(c, src, pool):
+    """src['decoys']: labels an earlier, identical call gave to gates it created although they carry no random part.
+    A gate of that name computing something else is put into the host first: the library has to cope with it (choose
+    another name, or refuse) - silently adopting the decoy as its own gate computes another function."""
+    from cirbo.core.circuit import gate as G
+
+    for j, d in enumerate(src.get('decoys') or []):
+        if d in c.gates or not pool:
+            continue
+        a, b = pool[j % len(pool)], pool[(j + 1) % len(pool)]
+        if a == b:
+            c.emplace_gate(d, G.IFF, (a,))
+        else:
+            c.emplace_gate(d, G.NXOR if j % 2 else G.OR, (a, b))
+
+
+def with_decoys(record_one):
+    """Wraps a recorder: after a call on a host circuit, the gates it created under predictable names (no 32-digit random
+    part, not returned to the caller) are planted as decoys and the same call is recorded once more."""
+    def record(src):
+        case = record_one(src)
+        if src.get('decoys') or src.get('gen') or not isinstance(case, dict) or case.get('exc') or 'post' not in case:
+            return case
+        returned = set(case.get('returned') or []) | set(case.get('outlabels') or [])
+        new = [l for l in case['post']['g'] if l not in case['pre']['g'] and not _HEX32.search(l) and l not in returned]
+        if not new:
+            return case
+        second = record_one(dict(src, decoys=sorted(new)))
+        return [case, second] if isinstance(second, dict) else [case] + list(second)
+    return record
 
 
 def rows_spec(c, rng):
